@@ -25,10 +25,17 @@ static int lie_status_for_stage() {
 
 // ------------------------------------------------------------------ C16: reduced precision copies
 static bool dbl_close(double d, const Q &q) {
+	// outside the range of a double the property says nothing ("each finite number within one unit in the last place"):
+	// overflow to infinity, the largest double, or a denormal/zero for tiny values are all accepted there
+	Q big; mpq_set_d(big.get_mpq_t(), 1.7e308); Q tiny; mpq_set_d(tiny.get_mpq_t(), 2.3e-308);
+	if (abs(q) >= big) return !(d == d) ? false : (q > 0 ? d > 1e300 : d < -1e300);
+	if (q != 0 && abs(q) < tiny) return fabs(d) < 1e-300;
+	if (!std::isfinite(d)) return false;
 	Q qd; mpq_set_d(qd.get_mpq_t(), d);
 	if (qd == q) return true;
 	if (q == 0 || d == 0) return false;
-	Q lo, hi; mpq_set_d(lo.get_mpq_t(), nextafter(d, -INFINITY)); mpq_set_d(hi.get_mpq_t(), nextafter(d, INFINITY));
+	double dl = nextafter(d, -INFINITY), dh = nextafter(d, INFINITY);
+	Q lo, hi; if (std::isfinite(dl)) mpq_set_d(lo.get_mpq_t(), dl); else lo = -big; if (std::isfinite(dh)) mpq_set_d(hi.get_mpq_t(), dh); else hi = big;
 	return lo < q && q < hi;
 }
 static bool mpf_close(mpf_t f, const Q &q) {
@@ -206,6 +213,10 @@ QSbasis *sim_dbl_QSget_basis(dbl_QSdata *p) {
 // ================================================================== mpf stages
 int sim_mpf_ILLeditor_solve(mpf_QSdata *p, int algo) {
 	begin_stage(1, shim_precision()); World *w = world();
+	// S1, coarse: on the simulated machine the high rungs of the ladder cost more time than the solve has left, so the stage
+	// runs into its own time limit at the first look at the clock (deterministic: a function of the precision only)
+	// (the stage is not run; exact.c is told TIME_LIMIT, which it treats like any other non-definitive stage status)
+	if (w->ladder_cut > 0 && (int)shim_precision() > w->ladder_cut) { w->now += 1e6; w->ladder_cut_fired++; w->ladder_cut_in_op++; w->stages.back().cut = true; w->stages.back().real_status = w->stages.back().told_status = QS_LP_TIME_LIMIT; return 0; }
 	check_copy_mpf(p);
 	w->stages.back().warm = p->basis != 0;
 	for (const Fault *f : stage_faults("flt.perturb")) {
@@ -223,6 +234,7 @@ int sim_mpf_ILLeditor_solve(mpf_QSdata *p, int algo) {
 	return rv;
 }
 int sim_mpf_QSget_status(mpf_QSdata *p, int *status) {
+	{ World *w = world(); if (!w->stages.empty() && w->stages.back().cut) { *status = QS_LP_TIME_LIMIT; return 0; } }
 	int rv = mpf_QSget_status(p, status);
 	int lie = lie_status_for_stage();
 	if (lie && !rv && *status != lie) { *status = lie; World *w = world(); if (!w->stages.empty() && w->stages.back().told_status != lie) { w->stages.back().told_status = lie; fired("flt.status"); } }
